@@ -174,7 +174,7 @@ class SysSim(Engine):
             ops.append(self._gen_check(rng, world))
             if rng.chance(0.75):
                 ops.append({"op": "fault", "kind": rng.weighted([("delta_big", 3), ("delta_small", 3), ("delta_just_above", 3), ("delta_0p2", 1), ("delta_1p5", 1), ("delta_4", 1),
-                                                  ("nan", 2), ("neg_big", 2), ("neg_small", 1)]),
+                                                  ("nan", 2), ("neg_big", 2), ("neg_small", 1), ("inf_pair", 1)]),
                             "arr": rng.randint(0, 50), "role": rng.choice(["flow", "flow", "inflow", "outflow"]), "entry": rng.randint(0, 10 ** 6),
                             "sign": rng.choice([1, -1])})
                 ops.append(self._gen_check(rng, world))
@@ -575,6 +575,20 @@ class SysSim(Engine):
             tol = ref_default_tolerance(sys_)
             scale = max(tol, 100 * EPS)
             fk = op["kind"]
+            if fk == "inf_pair":
+                # unbounded entries are values like any other: +inf and -inf in one flow.  The default tolerance is then infinite and
+                # no entry lies below minus infinity, so check_flows has nothing to flag there; the balance itself is not judged
+                if role != "flow" or arr.values.size < 2:
+                    return
+                idx2 = np.unravel_index((op["entry"] + 1) % arr.values.size, arr.values.shape)
+                old2 = float(arr.values[idx2])
+                arr.values[idx] = np.inf
+                arr.values[idx2] = -np.inf
+                st.undo.append((arr, idx2, old2))
+                st.undo.append((arr, idx, old))
+                self._fault(st, "conservation_inf_pair_flow")
+                self._update_levels(st)
+                return
             if fk == "nan":
                 new = float("nan")
             elif fk == "delta_big":
@@ -618,14 +632,19 @@ class SysSim(Engine):
 
     def _snapshot(self, sys_):
         out = {}
+
+        def cp(v):
+            c = v.copy()
+            c.flags.writeable = v.flags.writeable
+            return c
         for n, f in sys_.flows.items():
-            out["flow " + n] = (dims_sig(f.dims), f.values.copy())
+            out["flow " + n] = (dims_sig(f.dims), cp(f.values))
         for n, s in sys_.stocks.items():
             for r in ("stock", "inflow", "outflow"):
                 a = getattr(s, r)
-                out[f"stock {n} {r}"] = (dims_sig(a.dims), a.values.copy())
+                out[f"stock {n} {r}"] = (dims_sig(a.dims), cp(a.values))
         for n, p in sys_.parameters.items():
-            out["param " + n] = (dims_sig(p.dims), p.values.copy())
+            out["param " + n] = (dims_sig(p.dims), cp(p.values))
         out["dims"] = (dims_sig(sys_.dims), None)
         out["processes"] = ([(n, p.id) for n, p in sys_.processes.items()], None)
         return out
@@ -638,10 +657,15 @@ class SysSim(Engine):
                 return k
             if a[k][1] is not None and not np.array_equal(a[k][1], b[k][1], equal_nan=True):
                 return k
+            if a[k][1] is not None and a[k][1].flags.writeable != b[k][1].flags.writeable:
+                return k + " (left read-only: the next in-place write or recompute fails)"
         return None
 
     def _judge_mass_balance(self, st, op):
         sys_ = st.sys
+        if any(np.any(np.isinf(a.values)) for _, a in self._arrays(st)):
+            self._probe(st, "mass_balance_not_judged_infinite_entries")
+            return
         imb = ref_imbalance(sys_)
         tol = op["tol"] if op["tol"] is not None else ref_default_tolerance(sys_)
         has_nan = any(v != v for v in imb.values())
@@ -881,6 +905,10 @@ class SysSim(Engine):
             if out2[0] != "ret":
                 raise Violation("export-recovers", f"repeating {kind} into the same location after the fault raised {out2[1]}", cls="export-recovers", **tags)
             self._judge_export(st, op, result2, target2, dict(tags, recovery=True))
+            diff = self._same_snapshot(before, self._snapshot(sys_))
+            if diff:
+                raise Violation("export-leaves-system-unchanged", f"{kind} repeated after a fault changed '{diff}' of the system",
+                                cls="export-leaves-system-unchanged", **tags)
             return
         if out[0] == "interrupt":
             return
@@ -1125,7 +1153,11 @@ class SysSim(Engine):
                     continue
                 if any(d.dtype is None for d in arr.dims):
                     continue  # untyped labels of mixed type (1, 2, "3+") come back from a text file as text: nothing to read back by
-                same_by_df(arr, pd.read_csv(os.path.join(target, fname), dtype=str, keep_default_na=False), f"file {fname}")
+                try:
+                    table = pd.read_csv(os.path.join(target, fname), dtype=str, keep_default_na=False)
+                except Exception as e:  # noqa  (an empty or torn file left behind by an export that returned normally)
+                    bad(f"file {fname}: the exported file cannot be parsed as CSV ({exc_class(e)})")
+                same_by_df(arr, table, f"file {fname}")
             if target in getattr(st, "unrelated_dirs", set()) and not os.path.exists(os.path.join(target, "unrelated.txt")):
                 bad("an unrelated file in the export directory disappeared")
             if not hasattr(st, "file_origin"):
